@@ -45,3 +45,15 @@ package labelpatch
 //@ loop 3 invariant unlabelled_are_pods: forall q :: 0 <= q && q < len(updatedButUnpatchedPods) ==> updatedButUnpatchedPods[q] != nil
 //@ loop 4 invariant counters: len(plannedUpdatedReplicasForBatches) == len(r.batches) && fresh(plannedUpdatedReplicasForBatches) && 0 <= i && i < len(plannedUpdatedReplicasForBatches)
 //@ loop 4 invariant unlabelled_are_pods: forall q :: 0 <= q && q < len(updatedButUnpatchedPods) ==> updatedButUnpatchedPods[q] != nil
+
+// FilterPodsForUnorderedUpdate: only the low-priority group may be cut from the list handed to the patcher; a pod that
+// already carries this release's rollout-id is never put into that group (otherwise it would not consume its batch's
+// budget in patchPodBatchLabel and the batch would be over-labelled).
+//@ func FilterPodsForUnorderedUpdate
+//@ props C12
+//@ requires ctx != nil
+//@ requires pods_set: forall q :: 0 <= q && q < len(pods) ==> pods[q] != nil
+//@ loop 1 invariant pods_kept: (forall q :: 0 <= q && q < len(pods) ==> pods[q] != nil) && !fresh(pods) && -1 <= rangeindex && rangeindex < len(pods)
+//@ loop 1 invariant groups_fresh: (cap(lowPriorityPods) == 0 || fresh(lowPriorityPods)) && (cap(highPriorityPods) == 0 || fresh(highPriorityPods)) && (cap(terminatingPods) == 0 || fresh(terminatingPods))
+//@ loop 1 invariant framed: unchangedOutside()
+//@ loop 1 invariant droppable_pods_are_unlabelled: forall q :: 0 <= q && q < len(lowPriorityPods) ==> lowPriorityPods[q] != nil && lowPriorityPods[q].Labels["rollouts.kruise.io/rollout-id"] != ctx.RolloutID
